@@ -9,6 +9,11 @@ Judged(r) == /\ \E i \in 1..Len(r) : r[i].k \notin {"info", "env"}
              /\ \A i \in 1..Len(r) - 1 : r[i].k # "doneF"
 Shapes3 == { r \in AllShapes(3, 3) : Judged(r) }
 Shapes2 == { r \in AllShapes(3, 2) : Judged(r) }
+\* every response shape in which a final DONE occurs only as the last package: also the ones that deliver
+\* nothing (only informational messages / environment changes) and the empty response
+NoMidFinal(r) == \A i \in 1..Len(r) - 1 : r[i].k # "doneF"
+ShapesQ2 == { r \in AllShapes(3, 2) : NoMidFinal(r) } \cup {<<>>}
+ShapesQ3 == { r \in AllShapes(3, 3) : NoMidFinal(r) } \cup {<<>>}
 \* without the domain restriction TLC finds the stale-lastRx history (a response delivering nothing)
 \* malformed input: one "bad" package in front of ordinary ones
 ShapesBad == { r \in UNION { [1..m -> [k : {"row", "bad", "doneF"}, n : 1..2]] : m \in 2..3 } : r[1].k = "bad" }
